@@ -7,6 +7,8 @@ import (
 
 	"github.com/MixinNetwork/mixin/common"
 	"github.com/MixinNetwork/mixin/crypto"
+	"github.com/MixinNetwork/mixin/kernel/internal/clock"
+	"github.com/MixinNetwork/mixin/p2p"
 )
 
 // Verification hooks for property C24 (retiring a local proposal never loses a pending
@@ -152,4 +154,44 @@ func (h *VerifC24) Dump() ([]crypto.Hash, []VerifC24Ver) {
 // indices Dump reports).
 func (h *VerifC24) VerifierSnapshotHash(i int) crypto.Hash {
 	return h.verifiers[i].Snapshot.Hash
+}
+
+// VerifC24ShouldRequeueSelfAnnouncement is the decision cosiHandleAction / cosiHook make on the
+// error of a failed self announcement.
+func VerifC24ShouldRequeueSelfAnnouncement(err error) bool {
+	return shouldRequeueSelfAnnouncement(err)
+}
+
+// VerifC24HandleSelfEmpty runs the real cosiHandleAction for a self announcement (a batch popped
+// from the cache queue) on the loaded chain of an accepted genesis node: for the duration of the
+// call the node acts as that member and is in sync with all peers, which is what
+// checkActionSanity requires before it reaches validateSnapshotTransaction. It reports the
+// number of aggregators on that chain afterwards.
+func (node *Node) VerifC24HandleSelfEmpty(txs []crypto.Hash) (int, error) {
+	oldId, oldChain, oldSync := node.IdForNetwork, node.chain, node.SyncPointsMap
+	defer func() { node.IdForNetwork, node.chain, node.SyncPointsMap = oldId, oldChain, oldSync }()
+	accepted := node.NodesListWithoutState(clock.NowUnixNano(), true)
+	if len(accepted) == 0 {
+		panic("no accepted nodes")
+	}
+	self := accepted[len(accepted)-1].IdForNetwork
+	for _, cn := range accepted {
+		if node.GetRemovingOrSlashingNode(cn.IdForNetwork) == nil {
+			self = cn.IdForNetwork
+			break
+		}
+	}
+	node.IdForNetwork = self
+	node.chain = node.getOrCreateChain(self)
+	node.SyncPointsMap = make(map[crypto.Hash]*p2p.SyncPoint)
+	for _, cn := range accepted {
+		node.SyncPointsMap[cn.IdForNetwork] = &p2p.SyncPoint{NodeId: cn.IdForNetwork}
+	}
+	s := &common.Snapshot{Version: common.SnapshotVersionCommonEncoding, NodeId: self}
+	for _, tx := range txs {
+		s.AddTransaction(tx)
+	}
+	m := &CosiAction{PeerId: self, Action: CosiActionSelfEmpty, Snapshot: s}
+	err := node.chain.cosiHandleAction(m)
+	return len(node.chain.CosiAggregators), err
 }
